@@ -937,7 +937,7 @@ func main() {
 				deps := graphFromMask(n, mask)
 				for k, p := range perms {
 					// 4 targets: every order goes through the oracle, one order per graph (rotating) through the model
-					withCase := n <= 3 || k == int(mask%uint64(len(perms)))
+					withCase := n <= 3 || (mask%4 == 0 && k == int((mask/4)%uint64(len(perms)))) // thorough tier: a quarter of the 4-target graphs go through the model, all through the oracle
 					do(input{Labels: permuted(pool, p), Deps: deps}, fmt.Sprintf("exhaustive-%d", n), withCase)
 				}
 			}
@@ -996,7 +996,7 @@ func main() {
 			"on 2 targets with self references and on 3 targets without, one kept detector, under every AllTargets order")
 
 		// --- 1c. random sessions
-		nsess := c.Scale(1200, 20000)
+		nsess := c.Scale(1200, 6000)
 		for i := 0; i < nsess; i++ {
 			r := c.Rng.Fork()
 			kind, nlabels, steps := randomSession(r)
@@ -1026,7 +1026,7 @@ func main() {
 			}
 		}
 		c.Note("exhaustive: rings of 2 and 3 targets under a root, every assignment of the five kinds of declaration (deps, srcs, internal, run-time, data) to the ring's edges")
-		nk := c.Scale(500, 12000)
+		nk := c.Scale(500, 4000)
 		for i := 0; i < nk; i++ {
 			r := c.Rng.Fork()
 			shape, n, ops := randomKinded(r)
@@ -1046,7 +1046,7 @@ func main() {
 				}
 			}
 			c.Note("exhaustive: every directed graph on 3 targets with every non-empty set of hidden (_name#tag) labels, one random order each")
-			nh := c.Scale(400, 10000)
+			nh := c.Scale(400, 3000)
 			for i := 0; i < nh; i++ {
 				r := c.Rng.Fork()
 				kind, deps := randomGraph(r)
@@ -1077,7 +1077,7 @@ func main() {
 		}
 
 		// --- 2. random graphs up to 12 targets, random order
-		nrand := c.Scale(2000, 40000)
+		nrand := c.Scale(2000, 12000)
 		for i := 0; i < nrand; i++ {
 			r := c.Rng.Fork()
 			kind, deps := randomGraph(r)
